@@ -31,7 +31,7 @@ EXPECT = {
     "R-API.ret": [("value-to-reference", "ctl_api_ref")],
     "R-GRD.fwd": [("member-skipped-on-one-path", "CtlCompound::transform")],
     "R-LIFE.seq": [("moved-and-read-in-one-call", "ctl_moved_and_read")],
-    "R-EX.init": [("size-only-eigen-matrix", "ctl_eigen_uninit")],
+    "R-EX.init": [("size-only-eigen-matrix", "ctl_eigen_uninit"), ("size-only-eigen-member", "CtlEigenMember::CtlEigenMember")],
 }
 
 _cache = {}
@@ -69,7 +69,7 @@ def _run_all():
         C.LIB_EXTRA.append(os.path.join(C.DRIVERS, "controls_eigen.cpp"))
         ue = F.load("controls_eigen")
         r_small.r_eigen_init(c, [ue], lambda f: "vt_control" in f.qn)
-        silent = [v for v in c.violations if v["rule"] in ("R-EX.init", "R-LIFE.seq") and "ok_" in v["function"]]
+        silent = [v for v in c.violations if v["rule"] in ("R-EX.init", "R-LIFE.seq") and ("ok_" in v["function"] or "OkEigen" in v["function"])]
         if silent:
             raise AnalysisBroken("a rule fires on an accepted idiom of the controls: %s" % silent[0]["function"])
     finally:
